@@ -138,7 +138,7 @@ theorem Grow.openRound (e : EP) (r : OpenReq) : Grow e (openRound e r).1 := by
         Grow.insertPending e fid _ (by intro i hc; cases hc)
       simp only
       split
-      · exact g.trans (Grow.same rfl rfl)
+      · exact Grow.same rfl rfl
       · exact (Grow.enqFrame _ _).after (g.trans (Grow.same rfl rfl))
 
 theorem Grow.openRejected (e : EP) (req : Nat) (final : Bool) : Grow e (openRejected e req final).1 :=
